@@ -221,6 +221,16 @@ func runC04(c *run.Ctx, s *kit.Summary) {
 			}
 			cs.StopAfter = 1000000 + r.Range(0, total)
 		}
+		if cs.StopAfter == 0 && i%40 == 7 { // the pool stays saturated at its cap for a long time (> 100 ms per hit)
+			cs.Workers = uint64(1 + r.Pick(2))
+			cs.Max = cs.Workers
+			cs.Latency = r.PickI64([]int64{150000000, 250000000, 400000000})
+			cs.Du, cs.StopAt = 0, 4+r.Pick(3)
+			cs.Waits = cs.Waits[:0]
+			for j := 0; j <= cs.StopAt; j++ {
+				cs.Waits = append(cs.Waits, r.PickI64([]int64{0, 0, 1000000}))
+			}
+		}
 		if cs.StopAfter == 0 && r.Chance(0.12) { // a duration that is over before (or just as) the loop first looks at the clock
 			cs.Du = r.PickI64([]int64{1, 100, 1000, 10000, 30000, 100000})
 		}
@@ -234,6 +244,9 @@ func runC04(c *run.Ctx, s *kit.Summary) {
 			defer mu.Unlock()
 			s.Case(fmt.Sprint(cs), len(log) >= 3)
 			s.Count(fmt.Sprintf("du=%v", cs.Du > 0))
+			if cs.Latency >= 100000000 {
+				s.Count("saturated_at_cap_for_long")
+			}
 			if cs.Du > 0 && cs.Du <= 100000 {
 				s.Count("du=tiny(<=100us)")
 			}
